@@ -10,6 +10,7 @@ import (
 	"io"
 	"os"
 	"path/filepath"
+	"perkeep.org/pkg/blobserver/replica"
 	"runtime"
 	"sort"
 	"strings"
@@ -399,7 +400,18 @@ func (ct *c19ctl) upload(b *c19blob) error {
 	ct.mu.Lock()
 	inc := ct.inc
 	ct.mu.Unlock()
-	_, err := blobserver.Receive(context.Background(), inc.src, b.ref, strings.NewReader(b.content))
+	// uploads reach a sync source the ways they do in a server: verified (the upload handlers), unverified (what a
+	// replica, the file writer and the packed / encrypting stores use for blobs they made themselves), or through a replica
+	var err error
+	switch b.id % 3 {
+	case 0:
+		_, err = blobserver.Receive(context.Background(), inc.src, b.ref, strings.NewReader(b.content))
+	case 1:
+		_, err = blobserver.ReceiveNoHash(context.Background(), inc.src, b.ref, strings.NewReader(b.content))
+	default:
+		rep := replica.NewForTest([]blobserver.Storage{inc.src, &memory.Storage{}})
+		_, err = blobserver.Receive(context.Background(), rep, b.ref, strings.NewReader(b.content))
+	}
 	ct.mu.Lock()
 	defer ct.mu.Unlock()
 	if err == nil && !inc.dead {
